@@ -8,10 +8,12 @@ import (
 	"context"
 	"encoding/json"
 	"fmt"
+	"go/ast"
 	"go/types"
 	"os"
 	"os/exec"
 	"reflect"
+	"regexp"
 	"runtime/debug"
 	"sort"
 	"strings"
@@ -40,11 +42,13 @@ type structObs struct {
 	StdKeys        []string // keys written by the real encoding/json for a value with every field non-empty (nil: could not be built)
 	StdKeysKept    []string // same, the fields tagged gomacro:"ignore" removed from the struct first
 	StdOK          bool
+	ObsComments    []string // kind|content kept by the analysis
+	ExpComments    []string // kind|content of the directives written on this struct's own declaration (E1, from the syntax tree)
 }
 
 type namedObs struct {
 	Kind, ID, Local, PkgName, PkgPath string
-	Members                          []string // union: member local names ; enum: exported constant names
+	Members                           []string // union: member local names ; enum: exported constant names
 }
 
 type obsResult struct {
@@ -211,6 +215,10 @@ func (w *walker) visitAt(node analysis.Type, at types.Type, atCoq string) {
 		for _, f := range n.Fields {
 			so.Fields = append(so.Fields, fieldObs{Name: f.Field.Name(), Tag: string(f.Tag), JSON: f.JSONName(), GoExported: f.Field.Exported(), Exported: f.Exported()})
 		}
+		for _, c := range n.Comments {
+			so.ObsComments = append(so.ObsComments, fmt.Sprintf("%d|%s", c.Kind, c.Content))
+		}
+		so.ExpComments = w.fx.expectedComments(n.Name)
 		so.StdKeys, so.StdOK = stdJSONKeys(n.Name, false)
 		so.StdKeysKept, _ = stdJSONKeys(n.Name, true)
 		w.structs = append(w.structs, so)
@@ -432,4 +440,48 @@ func (fx *factsCtx) expectedSource(target string) string {
 		out = append(out, fx.coqTy(x.t))
 	}
 	return coqList(out)
+}
+
+var reSpecialComment = regexp.MustCompile(`^// gomacro:(\w+) (.+)`)
+
+// expectedComments: the directives carried by the declaration of the struct itself: the doc of an ungrouped
+// `type X struct`, the doc of the type specification inside a grouped `type ( ... )`.
+func (fx *factsCtx) expectedComments(named *types.Named) []string {
+	obj := named.Origin().Obj()
+	if obj.Pkg() == nil {
+		return nil
+	}
+	p := fx.byPath[obj.Pkg().Path()]
+	if p == nil || !strings.HasPrefix(p.PkgPath, userPrefix(fx.root.PkgPath)) {
+		return nil
+	}
+	var out []string
+	for _, f := range p.Syntax {
+		for _, d := range f.Decls {
+			gd, ok := d.(*ast.GenDecl)
+			if !ok {
+				continue
+			}
+			for _, sp := range gd.Specs {
+				ts, ok := sp.(*ast.TypeSpec)
+				if !ok || ts.Name.Pos() != obj.Pos() {
+					continue
+				}
+				doc := gd.Doc
+				if gd.Lparen.IsValid() {
+					doc = ts.Doc
+				}
+				if doc == nil {
+					return nil
+				}
+				for _, c := range doc.List {
+					if m := reSpecialComment.FindStringSubmatch(c.Text); m != nil {
+						kind := map[string]int{"SQL": 1, "QUERY": 2}[m[1]]
+						out = append(out, fmt.Sprintf("%d|%s", kind, m[2]))
+					}
+				}
+			}
+		}
+	}
+	return out
 }
